@@ -169,7 +169,9 @@ Definition fmt_round_pads (B : Z) (m : mode) (f : fmtflags) (s e : Z) (prec : op
     let digits := if leading =? 0 then Z.max n 1 else n in
     let has_sign := if (s <? 0) || f_plus f then 1 else 0 in
     let has_point :=
-      if 0 <? exp then (match prec with Some p => if 0 <? p then 1 else 0 | None => 0 end)
+      (* repair F08: `exp >= 0` (was `exp > 0`: an integer-valued float with exponent 0 and no precision was
+         counted with a radix point it does not print) *)
+      if 0 <=? exp then (match prec with Some p => if 0 <? p then 1 else 0 | None => 0 end)
       else (match prec with Some 0 => 0 | _ => 1 end) in
     let width := digits + has_sign + has_point + leading + trailing in
     if minw <=? width then (0, 0)
@@ -219,6 +221,37 @@ Definition sci_layout (B : Z) (upper : bool) (s : Z) (prec : option Z) (rounded 
 
 Definition sci_body_asis (B : Z) (m : mode) (upper : bool) (s e : Z) (prec : option Z) : list Z :=
   sci_layout B upper s prec (sci_rounded B m s e prec).
+
+(** the width computed by fmt_round_scientific and the resulting paddings (left, right); after the repair F08 the
+    zero flag overrides fill and alignment as in fmt_round *)
+Definition sci_pads (B : Z) (m : mode) (upper : bool) (f : fmtflags) (s e : Z) (prec : option Z) : Z * Z :=
+  match f_width f with
+  | None => (0, 0)
+  | Some minw =>
+    let '(signif, exp) := sci_rounded B m s e prec in
+    let str := if (s <? 0) && (signif =? 0) then [] else dtext upper B (Z.abs signif) in
+    let n := len str in
+    let exp_str := itoa (exp + n - 1) in
+    let p := match prec with Some p => p | None => 0 end in
+    let has_point := if (1 <? n) || (0 <? p) then 1 else 0 in
+    let has_sign := if (s <? 0) || f_plus f then 1 else 0 in
+    let trailing := if n - 1 <? p then p - (n - 1) else 0 in
+    let width := n + len exp_str + 1 + has_sign + has_point + trailing in
+    if minw <=? width then (0, 0)
+    else if f_zero f then (minw - width, 0)
+    else match f_align f with
+         | Some ALeft => (0, minw - width)
+         | Some ARight | None => (minw - width, 0)
+         | Some ACenter => let d := minw - width in (d / 2, d - d / 2)
+         end
+  end.
+
+Definition sci_asis (B : Z) (m : mode) (upper : bool) (f : fmtflags) (s e : Z) (prec : option Z) : list Z :=
+  let '(l, r) := sci_pads B m upper f s e prec in
+  (if f_zero f then [] else rep l (f_fill f)) ++
+  (if s <? 0 then [45] else if f_plus f then [43] else []) ++
+  (if f_zero f then zeros l else []) ++
+  sci_body_asis B m upper s e prec ++ rep r (f_fill f).
 
 (** before the repair F03: the carry was kept, one digit too many was printed *)
 Definition sci_rounded_old (B : Z) (m : mode) (s e : Z) (prec : option Z) : Z * Z :=
